@@ -182,6 +182,9 @@ func (n *nativeRunner) stubgen(replace map[string]string) error {
 	edits := map[string][]edit{}
 	appendix := map[string][]string{}
 	for target, stub := range n.p.Stubs {
+		if n.p.EngineOnly[target] {
+			continue
+		}
 		tf := n.findTarget(target)
 		if tf == nil {
 			return fmt.Errorf("stubgen: target %s not found", target)
